@@ -326,12 +326,120 @@ def _b4(ctx):
     ctx.require(sites >= 2, R, f"call sites of try_replace_single_term: {sites}")
     ctx.floor(R, 14)
 
+MAPPER = "accelforge/mapper/"
+OBJ_SRC = ("objective_tolerance",)
+RES_SRC = ("resource_usage_tolerance", "absolute_resource_usage_tolerance", "excess_resource_tolerance")
+
+
+def _kinds_of_names(fi):
+    """name -> set of kinds {'OBJ','RES'} by a fixpoint over assignments, loop targets, appends and comprehension targets"""
+    kinds: dict[str, set] = {}
+    for p in fi.params():
+        if p in OBJ_SRC:
+            kinds[p] = {"OBJ"}
+        elif p in RES_SRC:
+            kinds[p] = {"RES"}
+
+    def kind(e) -> set:
+        out = set()
+        for x in ast.walk(e):
+            if isinstance(x, ast.Attribute):
+                if x.attr in OBJ_SRC:
+                    out.add("OBJ")
+                elif x.attr in RES_SRC:
+                    out.add("RES")
+            elif isinstance(x, ast.Name) and isinstance(x.ctx, ast.Load):
+                out |= kinds.get(x.id, set())
+        return out
+
+    def bind(t, ks):
+        ch = False
+        for n in ast.walk(t):
+            if isinstance(n, ast.Name) and not ks <= kinds.get(n.id, set()):
+                kinds.setdefault(n.id, set()).update(ks)
+                ch = True
+        return ch
+    changed = True
+    while changed:
+        changed = False
+        for n in fi.walk(into_nested=True):
+            if isinstance(n, (ast.Assign, ast.AnnAssign, ast.AugAssign)):
+                for t, v, _ in assigned_targets(n):
+                    if v is not None and isinstance(t, (ast.Name, ast.Tuple, ast.List)):
+                        changed |= bind(t, kind(v))
+            elif isinstance(n, (ast.For, ast.comprehension)):
+                changed |= bind(n.target, kind(n.iter))
+            elif isinstance(n, ast.Call) and isinstance(n.func, ast.Attribute) and n.func.attr in ("append", "extend", "insert") and isinstance(n.func.value, ast.Name):
+                ks = set()
+                for a in n.args:
+                    ks |= kind(a)
+                if not ks <= kinds.get(n.func.value.id, set()):
+                    kinds.setdefault(n.func.value.id, set()).update(ks)
+                    changed = True
+    return kinds, kind
+
+
+def _b5(ctx):
+    R = "C16-B5"
+    ctx.doc(R, "the returned join is the round joined at the configured tolerance: thresholds end at objective_tolerance, the last round cannot be skipped, dirty rounds only feed filters (C14-A1/A2/A4 under this rule id)")
+    from . import c14
+    c14._a1(ctx, R)
+    c14._a2_a4(ctx, R, R)
+    ctx.floor(R, 8)
+
+
+def _b6(ctx):
+    R = "C16-B6"
+    ctx.doc(R, "tolerance kinds are not mixed: every value bound to an objective-tolerance slot derives only from objective_tolerance sources (never from a resource-usage tolerance)")
+    # callee signatures that have an objective_tolerance parameter (for positional arguments)
+    sig: dict[str, set] = {}
+    for fi in ctx.repo.all_funcs("accelforge/"):
+        ps = fi.params()
+        if "objective_tolerance" in ps:
+            idx = ps.index("objective_tolerance") - (1 if ps and ps[0] in ("self", "cls") else 0)
+            sig.setdefault(fi.name, set()).add(idx)
+    sites = 0
+    for fi in ctx.repo.all_funcs(MAPPER):
+        if fi.parent is not None:
+            continue  # nested functions are analysed with their outermost function
+        slots = []
+        for c in fi.calls(None, into_nested=True):
+            k = kwarg(c, "objective_tolerance")
+            if k is not None:
+                slots.append((c, k, "objective_tolerance="))
+                continue
+            nm = call_name(c)
+            if nm in sig and len(sig[nm]) == 1:
+                i = next(iter(sig[nm]))
+                if i < len(c.args) and not any(isinstance(a, ast.Starred) for a in c.args[: i + 1]):
+                    slots.append((c, c.args[i], f"positional #{i} of {nm}"))
+        # objectives over Total / action columns in tile exploration are rounded with the objective tolerance
+        for c in fi.calls("Objective", into_nested=True):
+            t = kwarg(c, "tolerance")
+            nmk = kwarg(c, "name")
+            if t is not None and nmk is not None and isinstance(nmk, ast.Name) and nmk.id == "k":
+                fm = kwarg(c, "formula")
+                if fm is not None and isinstance(fm, ast.Name) and fm.id == "v" and kwarg(c, "max_value") is None:
+                    slots.append((c, t, "Objective(tolerance=) of a Total/action column"))
+        if not slots:
+            continue
+        kinds, kind = _kinds_of_names(fi)
+        for c, e, what in slots:
+            sites += 1
+            ks = kind(e)
+            ctx.check("RES" not in ks, R, fi, c, f"`{norm(e)}` is bound to an objective-tolerance slot ({what}) but derives from a resource-usage tolerance: objectives are then rounded on a (1 + resource tolerance) grid, "
+                      f"so with resource_usage_tolerance > objective_tolerance the optimum can be displaced by more than (1 + objective_tolerance)", f"{what}: kinds {sorted(ks) or ['neutral']}")
+    ctx.require(sites >= 8, R, f"objective-tolerance slots found: {sites}")
+    ctx.floor(R, 8)
+
 
 def check(ctx):
     _b1(ctx)
     _b2(ctx)
     _b3(ctx)
     _b4(ctx)
+    _b5(ctx)
+    _b6(ctx)
 
 
 VARIANTS = [
@@ -348,6 +456,11 @@ VARIANTS = [
     {"kind": "F", "name": "merged-goal-takes-larger-tolerance", "rule": "C16-B4", "edits": [(TS, "        tolerance = min(self.tolerance, other.tolerance)", "        tolerance = max(self.tolerance, other.tolerance)")]},
     {"kind": "F", "name": "merged-goal-forgets-tolerance", "rule": "C16-B4", "edits": [(TS, "        if self.goal == other.goal:\n            return Goal(self.goal, **kwargs)", "        if self.goal == other.goal:\n            return Goal(self.goal, mv, care, self.tolerance, self.absolute_tolerance)")]},
     {"kind": "F", "name": "replaced-term-goal-not-reset", "rule": "C16-B4", "edits": [(TS, "                    new_goal.tolerance = 0\n                    new_goal.absolute_tolerance = 0\n", "")]},
+    {"kind": "F", "name": "last-round-keyed-on-zero-threshold", "rule": "C16-B5", "edits": [(JP, "                is_last=i == len(thresholds) - 1,", "                is_last=threshold == 0,")]},
+    {"kind": "F", "name": "objective-thresholds-end-above-tolerance", "rule": "C16-B5", "edits": [(JP, "    thresholds.append(spec.mapper.objective_tolerance)\n", "    thresholds.append(max(spec.mapper.objective_tolerance, 0.01))\n")]},
+    {"kind": "F", "name": "resource-tolerance-in-objective-slot", "rule": "C16-B6", "edits": [("accelforge/mapper/FFM/_make_pmappings/make_pmappings_from_templates/make_pmappings_from_templates.py", "        objective_tolerance=job0.objective_tolerance,\n    ).copy()", "        objective_tolerance=resource_usage_tolerance,\n    ).copy()")]},
+    {"kind": "F", "name": "tile-objectives-rounded-with-resource-tolerance", "rule": "C16-B6", "edits": [(TS, "                terms_do_not_cross_zero=\"energy\" in k or \"latency\" in k,\n                tolerance=job.objective_tolerance,", "                terms_do_not_cross_zero=\"energy\" in k or \"latency\" in k,\n                tolerance=max(job.objective_tolerance, job.resource_usage_tolerance),")]},
+    {"kind": "S", "name": "objective-tolerance-through-a-local", "edits": [("accelforge/mapper/FFM/_make_pmappings/make_pmappings_from_templates/make_pmappings_from_templates.py", "        objective_tolerance=job0.objective_tolerance,\n    ).copy()", "        objective_tolerance=ot_,\n    ).copy()"), ("accelforge/mapper/FFM/_make_pmappings/make_pmappings_from_templates/make_pmappings_from_templates.py", "    resource_usage_tolerance = job0.resource_usage_tolerance\n", "    ot_ = job0.objective_tolerance\n    resource_usage_tolerance = job0.resource_usage_tolerance\n")]},
     {"kind": "S", "name": "merged-goal-exact", "edits": [(TS, "        tolerance = min(self.tolerance, other.tolerance)", "        tolerance = 0")]},
     {"kind": "S", "name": "rounded-local-then-append", "edits": [(PA, "            to_pareto.append(logscale_to_tolerance(series, objective_tolerance))", "            r_ = logscale_to_tolerance(series, objective_tolerance)\n            to_pareto.append(r_)")]},
     {"kind": "S", "name": "mask-then-select", "edits": [(PA, "    return mappings[fast_pareto_mask(combined.values, goals)]", "    keep_ = fast_pareto_mask(combined.values, goals)\n    return mappings[keep_]")]},
